@@ -127,6 +127,7 @@ def noDeviant (envS : Str → Option (Spec.Val N)) (refOK : Str → Bool) : Expr
   | .logical _ => true
   | .ref k => refOK k
   | .paren e => noDeviant envS refOK e
+  | .call _ _ => false   -- aggregates are outside calc_correct_partial (their deviations: agg:* findings)
   | .neg e => noDeviant envS refOK e && !isNeg e && negOK (Spec.eval envS e)
   | .pct e => noDeviant envS refOK e && pctOK (Spec.eval envS e)
   | .bin op l r => noDeviant envS refOK l && noDeviant envS refOK r &&
